@@ -68,6 +68,18 @@ def main():
     rep['n2'] = len(open(COUNTER).read().split())
     rep['values2'] = [list(r2[t]) if t in r2 else None for t in t2]
     rep['metas2'] = [meta(t) for t in t2]
+    # third run: the task objects come from cached_tasks() (rebuilt from the stored metadata) - they must hit too
+    lab3 = labtech.Lab(storage=store, runner_backend=b2, max_workers=2)
+    listed = lab3.cached_tasks([Leaf, Sum])
+    originals = build()
+    pick = [next((x for x in listed if x == o), None) for o in originals]
+    rep['listed_matches'] = [x is not None for x in pick]
+    if all(x is not None for x in pick):
+        r3 = lab3.run_tasks(pick, disable_progress=True, disable_top=True)
+        rep['n3'] = len(open(COUNTER).read().split())
+        rep['values3'] = [list(r3[t]) if t in r3 else None for t in pick]
+        rep['metas3'] = [meta(t) for t in pick]
+        rep['keys3'] = [[t.cache_key, o.cache_key] for t, o in zip(pick, originals)]
     with open(outp, 'w') as f:
         json.dump(rep, f)
 
